@@ -5,6 +5,8 @@ import Pysmi.Model.Writer
 import Pysmi.Model.Borrower
 import Pysmi.Model.Searcher
 import Pysmi.Model.Reader
+import Pysmi.Model.Oid
+import Pysmi.Model.Symtab
 /-!
 Line-protocol driver: one JSON object per input line, one JSON value per output line.
 Imports only the import-free model files and `Lean.Data.Json`.
@@ -353,6 +355,44 @@ def opUrlKind (j : Json) : Except String Json := do
   return .str (match k with | .file => "file" | .zip => "zip" | .http => "http" | .ftp => "ftp" | .unsupported => "unsupported")
 end Rd
 
+/-! ### ops: oid (genNumericOid over symbol tables), symreg (symbol registration) -/
+namespace Sy
+
+def part (j : Json) : Except String Pysmi.Oid.Part :=
+  match j with
+  | .arr #[n, m] => do return .ref (← n.getNat?) (← m.getNat?)
+  | v => do return .num (← v.getNat?)
+
+/-- {"op":"oid","iso":k,"fuel":f,"tables":[[module,name,[parts]],…],"queries":[[parts]…]} -/
+def opOid (j : Json) : Except String Json := do
+  let iso ← (← j.getObjVal? "iso").getNat?
+  let fuel ← (← j.getObjVal? "fuel").getNat?
+  let rows ← getList (fun r => do
+    match (← r.getArr?).toList with
+    | [m, n, ps] => return (← m.getNat?, ← n.getNat?, ← getList part ps)
+    | _ => throw "bad table row") (← j.getObjVal? "tables")
+  let T : Pysmi.Oid.Tables := fun m n => (rows.find? (fun r => r.1 == m && r.2.1 == n)).map (·.2.2)
+  let qs ← getList (getList part) (← j.getObjVal? "queries")
+  return .arr (qs.map (fun q =>
+    match Pysmi.Oid.numericOid iso T fuel q with
+    | .ok o => Json.arr (o.map (fun (x : Nat) => (x : Json))).toArray
+    | .error (.noSymbol n m) => Json.arr #[.str "nosymbol", n, m]
+    | .error .fuel => .str "fuel")).toArray
+
+/-- {"op":"symreg","avail":[names],"decls":[[name,[parents],[rows]],…]} -/
+def opSymreg (j : Json) : Except String Json := do
+  let avail ← getList (fun x => x.getNat?) (← j.getObjVal? "avail")
+  let decls ← getList (fun r => do
+    match (← r.getArr?).toList with
+    | [n, ps, rs] => return ({ name := ← n.getNat?, parents := ← getList (fun x => x.getNat?) ps,
+                                addsRows := ← getList (fun x => x.getNat?) rs } : Pysmi.Symtab.Decl)
+    | _ => throw "bad decl") (← j.getObjVal? "decls")
+  match Pysmi.Symtab.run (fun n => avail.contains n) decls with
+  | .ok order => return Json.mkObj [("order", .arr (order.map (fun (x : Nat) => (x : Json))).toArray)]
+  | .error (.duplicate n) => return Json.mkObj [("duplicate", n)]
+  | .error (.unknownParents ns) => return Json.mkObj [("unknown", .arr (ns.map (fun (x : Nat) => (x : Json))).toArray)]
+end Sy
+
 def handle (j : Json) : Except String Json := do
   let op ← (← j.getObjVal? "op").getStr?
   match op with
@@ -364,6 +404,8 @@ def handle (j : Json) : Except String Json := do
   | "filereader" => Rd.opFileReader j
   | "zipreader" => Rd.opZipReader j
   | "urlkind" => Rd.opUrlKind j
+  | "oid" => Sy.opOid j
+  | "symreg" => Sy.opSymreg j
   | "put2" => Wr.opPut2 j
   | _ => throw s!"unknown op {op}"
 
